@@ -22,7 +22,7 @@ import (
 // transaction id, right pre-apply checksum, intact file checksum) and are unusable all the same. Such a request is
 // refused; the primary keeps its database, position and log, and keeps running.
 func forwardedFiles(c *common.Ctx) error {
-	for _, variant := range []string{"other-page-size", "wrong-post-apply-checksum"} {
+	for _, variant := range []string{"other-page-size", "whole-database-file", "whole-database-file-to-900", "wrong-post-apply-checksum"} {
 		dir, err := os.MkdirTemp(c.OutDir, "c20f-")
 		if err != nil {
 			return err
@@ -79,6 +79,21 @@ func forwardedFiles(c *common.Ctx) error {
 				pg := lfs.MakePage(ps, 1, c.Rng.U64(), 1, false)
 				nim := &lfs.Image{PageSize: ps, Pages: [][]byte{pg}}
 				body = buildLTX(uint32(ps), 1, uint64(pos.TXID)+1, uint64(pos.TXID)+1, uint64(pos.PostApplyChecksum), nim.Checksum(), map[uint32][]byte{1: pg})
+			case "whole-database-file", "whole-database-file-to-900":
+				// starts again at transaction 1 (pre-apply checksum 0, every page of an image): would replace the database,
+				// wipe the log and move the position
+				max := uint64(1)
+				if variant == "whole-database-file-to-900" {
+					max = 900
+				}
+				nim := &lfs.Image{PageSize: im.PageSize}
+				pages := map[uint32][]byte{}
+				for pg := uint32(1); pg <= 2; pg++ {
+					d := lfs.MakePage(im.PageSize, pg, c.Rng.U64(), 2, false)
+					nim.Pages = append(nim.Pages, d)
+					pages[pg] = d
+				}
+				body = buildLTX(uint32(im.PageSize), 2, 1, max, 0, nim.Checksum(), pages)
 			default:
 				nim := im.Clone()
 				n := uint32(len(nim.Pages))
